@@ -16,7 +16,8 @@ Core Lean only.  Used by the theorems `build_computes_trace` and `inline_eq_call
 namespace OV.C18
 
 structure OpSem (α : Type) where
-  op : String → String → String → List (Option α) → List α
+  /-- (domain, op type, overload, attributes) applied to the input values. -/
+  op : String → String → String → List (String × AVal) → List (Option α) → List α
   lit : CKey → α
 
 abbrev Env (α : Type) := Nat → Option α
@@ -29,7 +30,7 @@ def bindOuts {α : Type} (e : Env α) : List Nat → List α → Env α
   | o :: os, vs => bindOuts (e.set o vs.head?) os vs.tail
 
 def evalNode {α : Type} (S : OpSem α) (e : Env α) (n : Node) : Env α :=
-  bindOuts e n.outs (S.op n.domain n.op n.overload (n.ins.map (fun i => i.bind e)))
+  bindOuts e n.outs (S.op n.domain n.op n.overload n.attrs (n.ins.map (fun i => i.bind e)))
 
 def evalNodes {α : Type} (S : OpSem α) (e : Env α) (ns : List Node) : Env α := ns.foldl (evalNode S) e
 
@@ -76,14 +77,14 @@ def takeN {α : Type} (vs : List α) : Nat → List (Option α)
 
 def replayStep {α : Type} (S : OpSem α) (fns : List Fn) (args : List α) (r : RSt α) : Item → RSt α
   | .input _ => ⟨r.henv ++ [args[r.nin]?], r.nin + 1⟩
-  | .op t a o _ _ =>
-    let vs := S.op "" t "" (a.map (argVal S r.henv))
+  | .op t a o _ _ as =>
+    let vs := S.op "" t "" as (a.map (argVal S r.henv))
     ⟨r.henv ++ takeN vs (outCount o), r.nin⟩
-  | .call fi a o =>
+  | .call fi a o as =>
     match fns[fi]? with
     | none => r
     | some f =>
-      let vs := S.op f.domain f.name f.overload (a.map (argVal S r.henv))
+      let vs := S.op f.domain f.name f.overload as (a.map (argVal S r.henv))
       ⟨r.henv ++ takeN vs (outCount (o.getD (.auto f.outputs.length))), r.nin⟩
   | _ => r
 
@@ -101,15 +102,22 @@ def bindNames {α : Type} (e : NEnv α) : List String → List α → NEnv α
   | o :: os, vs => bindNames (e.set o vs.head?) os vs.tail
 
 def evalFNode {α : Type} (S : OpSem α) (e : NEnv α) (n : FNode) : NEnv α :=
-  bindNames e n.outs (S.op n.domain n.op "" (n.ins.map (fun i => i.bind e)))
+  bindNames e n.outs (S.op n.domain n.op "" (plainAttrs n.attrs) (n.ins.map (fun i => i.bind e)))
 
 def bindFormals {α : Type} : List String → List (Option α) → NEnv α
   | f :: fs, v :: vs => (bindFormals fs vs).set f v
   | _, _ => fun _ => none
 
-/-- the values of a function's outputs on given actual values. -/
+/-- the values of a function's outputs on given actual values (the body's attributes as they stand: a
+    reference attribute that is still unresolved is absent). -/
 def evalBody {α : Type} (S : OpSem α) (f : Fn) (actuals : List (Option α)) : List (Option α) :=
   let e := f.nodes.foldl (evalFNode S) (bindFormals f.formals actuals)
   f.outputs.map e
+
+/-- what a function-call node with the attributes `passed` denotes (ONNX function semantics): the body with
+    every reference attribute bound to the passed value, else to the parameter's declared default. -/
+def callMeaning {α : Type} (S : OpSem α) (f : Fn) (passed : List (String × AVal)) (actuals : List (Option α)) :
+    List (Option α) :=
+  evalBody S (resolveFn (effectiveAttrs true f passed) f) actuals
 
 end OV.C18
